@@ -121,6 +121,8 @@ def gen_prog(rng, n_ops, profile, mfs):
                 op['retry'] = True
         elif r < 0.80:
             op = {'op': 'expire'}
+            if rng.random() < 0.25:
+                op['now_shift'] = rng.choice((100.0, 3.0, 1e6, -2.0))      # expire(now=...): purging ahead of (or behind) the clock
             if rng.random() < 0.3:
                 op['retry'] = True      # how a call is spelled (retry flag given or not) changes nothing for a single client
         elif r < 0.82:
@@ -209,6 +211,8 @@ def run_prog(case, pid, at_limit_fn=None, on_step=None):
     stats = {'ops': 0, 'probes': {}}
     world = World(case['seed'], clock={'mode': 'frozen', 'epoch': cfg.get('epoch', 1600000000.0)}, yield_clock=False)
     sim = world.sim
+    if cfg.get('var_limit'):
+        sim.var_limit = cfg['var_limit']      # an SQLite built with the old limit of 999 parameters per statement
     probes = stats['probes']
     try:
         dc = world.dc
